@@ -126,11 +126,12 @@ class _Ctx:
 
 
 def run(ctx):
-    from ..rules import fmtascii
+    from ..rules import fmtascii, sC18
     site = pC18.PyCallSite(ctx, 'CIntLike')
     helper = pC18.IntHelper(ctx)
     r_int, accepted = pC18.rule_int(ctx, site, helper)
     names = lambda n: n in ('__Pyx_PyUnicode_Join', '__Pyx_PyUnicode_FromDouble')
     r_i5 = iface.rule_I5(_Ctx(ctx), modules=('ExprNodes', 'PyrexTypes'), names=names, floor=2, rid='C18-I5')
     return [r_int, pC18.rule_chr(ctx, accepted), pC18.rule_dbl(ctx), pC18.rule_call(ctx), r_i5, pC18.rule_fmtfn(ctx),
-            pC18.rule_trn(ctx), pC18.rule_conv(ctx), pC18.rule_key(ctx), fmtascii.rule_ascii(ctx)]
+            pC18.rule_trn(ctx), pC18.rule_conv(ctx), pC18.rule_key(ctx), fmtascii.rule_ascii(ctx),
+            sC18.rule_memo(ctx)]
